@@ -41,7 +41,7 @@ def values():
 def block(depth):
     disp = st.builds(lambda v: ["disp", v], values())
     bad = st.builds(lambda t, c, nested: ["bad", t, c, nested], st.sampled_from(BAD), st.booleans(), st.booleans())
-    simple = [disp, disp, disp, bad, st.just(["raise"]), st.builds(lambda k: ["reenter", k], st.integers(0, 5))]
+    simple = [disp, disp, disp, bad, st.just(["raise"]), st.builds(lambda k: ["reenter", k], st.integers(0, 5)), st.just(["again"]), st.just(["again"])]
     if depth == 0:
         return st.lists(st.one_of(*simple), max_size=4)
     inner = block(depth - 1)
@@ -53,7 +53,7 @@ def block(depth):
 
 
 def case_strategy():
-    return st.fixed_dictionaries({"prog": block(3), "default_hook": st.sampled_from([False, False, False, True])})
+    return st.fixed_dictionaries({"prog": block(3), "default_hook": st.sampled_from([False, False, False, True]), "falsy_hook": st.sampled_from([False, False, True])})
 
 
 def build_value(v):
@@ -185,6 +185,16 @@ class Interp:
                 v = build_value(s[1])
                 sys.displayhook(v)
                 self.deliver(v)
+                if self.active:
+                    self.active[-1]["last"] = v
+            elif k == "again":
+                # the very same object displayed once more in the same block (or the block's last nested tag)
+                if not self.active or self.active[-1].get("last") is None:
+                    continue
+                v = self.active[-1]["last"]
+                sys.displayhook(v)
+                self.deliver(v)
+                self.stats["again"] = self.stats.get("again", 0) + 1
             elif k == "bad":
                 bad = mk_bad(s[1], s[3])
                 self.stats["bad"] += 1
@@ -253,6 +263,8 @@ class Interp:
                 finally:
                     check(sys.displayhook is h0, "after the block exits sys.displayhook is not the hook that was installed when it was entered" + (" (exception raised inside)" if raised_inside else ""))
                     self.deliver(tag)
+                    if self.active:
+                        self.active[-1]["last"] = tag
                     compare_children(tag, m["kids"], "block of <%s>" % s[1])
                     if self.active:
                         compare_children(self.active[-1]["tag"], self.active[-1]["kids"], "enclosing block")
@@ -270,6 +282,13 @@ def body(case, note):
     default = bool(case.get("default_hook"))
     # either a recording hook, or the interpreter's own default hook (which prints repr(value) and binds builtins._)
     base_hook = sys.__displayhook__ if default else it.base  # one object, so that identity comparisons are meaningful
+    if not default and case.get("falsy_hook"):
+        # any callable may be the hook - also one whose truth value is False (e.g. an empty recording list with __call__)
+        class RecordingList(list):
+            def __call__(self, v):
+                it.base_seen.append(v)
+
+        base_hook = RecordingList()
     sys.displayhook = base_hook
     buf = io.StringIO()
     saved_underscore = getattr(builtins, "_", None)
@@ -302,6 +321,8 @@ def body(case, note):
         "invalid-display-in-block" if s["bad"] else "",
         "blocks" if s["blocks"] else "no-blocks",
         "default-hook" if default else "",
+        "falsy-hook" if (not default and case.get("falsy_hook")) else "",
+        "same-object-again" if s.get("again") else "",
     )
 
 
@@ -312,5 +333,5 @@ RULE = (
 )
 
 CLAUSES = [
-    Clause("programs", body, strategy=case_strategy, quick=600, thorough=10000, shards_quick=4, required=("exception-crossed-block", "reentry", "invalid-display-in-block", "depth>=3", "default-hook"), rule="see RULE"),
+    Clause("programs", body, strategy=case_strategy, quick=600, thorough=10000, shards_quick=4, required=("exception-crossed-block", "reentry", "invalid-display-in-block", "depth>=3", "default-hook", "falsy-hook", "same-object-again"), rule="see RULE"),
 ]
